@@ -167,6 +167,9 @@ pub enum St {
     /// free running: `n` calls of a cheap operation on 8 threads - with full entropy no two results coincide, with 32 (40)
     /// bits of entropy about n^2 / 2^33 (2^41) pairs do
     Birthday { op: usize, n: usize },
+    /// one freshly started process: the call, then after each real-time pause (milliseconds) the same call again -
+    /// a generator that re-keys, rewinds or expires on elapsed time shows between the calls around a pause
+    Idle { op: usize, pauses_ms: Vec<u64> },
 }
 
 pub struct M20<C: Suite> {
@@ -209,6 +212,11 @@ impl<C: Suite> Model for M20<C> {
             v.push(St::Free { op, n });
             v.push(St::Processes { op });
         }
+        // pauses around the thresholds an idle timer would use (1 s, 2 s; thorough also 5 s, 10 s)
+        let idle_ops: Vec<usize> = if self.tier.thorough() { (0..OPS.len()).filter(|o| !OPS[*o].contains("byte message")).collect() } else { vec![0, 2, 3, 4, 6, 8] };
+        for op in idle_ops {
+            v.push(St::Idle { op, pauses_ms: if self.tier.thorough() { vec![1100, 2200, 5300, 10_400, 2200] } else { vec![1100, 2200, 2200] } });
+        }
         for op in [0usize, 8] {
             v.push(St::Birthday { op, n: if self.tier.thorough() { 4_000_000 } else { 400_000 } });
         }
@@ -235,11 +243,12 @@ impl<C: Suite> Model for M20<C> {
             St::History(h) => format!("{} history [{}] with identical arguments; entropy seam answers with distinct seeds", C::G, h.iter().map(|o| OPS[*o]).collect::<Vec<_>>().join(", ")),
             St::Free { op, n } => format!("{} free running (real entropy, not an enumeration): {} calls of {} on 4 threads", C::G, n, OPS[*op]),
             St::Processes { op } => format!("{} free running: {} in two independent processes", C::G, OPS[*op]),
+            St::Idle { op, pauses_ms } => format!("{} one fresh process: {} before and after each real-time pause of {:?} ms, all ephemerals distinct", C::G, OPS[*op], pauses_ms),
             St::Birthday { op, n } => format!("{} free running (a sample): {} calls of {} on 8 threads, all results distinct", C::G, n, OPS[*op]),
         }
     }
     fn required_outcomes(&self) -> Vec<String> {
-        vec!["history:all-ephemerals-distinct-and-entropy-dependent".into(), "free:no-repeat".into(), "processes:disjoint".into()]
+        vec!["history:all-ephemerals-distinct-and-entropy-dependent".into(), "free:no-repeat".into(), "processes:disjoint".into(), "idle:no-repeat-across-pauses".into()]
     }
     fn check(&self, st: &St, o: &mut Obs) {
         let g = C::G;
@@ -362,6 +371,21 @@ impl<C: Suite> Model for M20<C> {
                 o.outcome(if dup.is_none() && total > 0 { "free:no-repeat" } else { "free:repeat" });
                 o.expect(&format!("C20:free-running-repeat:{}:{}", g, OPS[*op]), dup.is_none() && total > 0, "no ephemeral repeats across calls and threads", &format!("'{}' repeated", dup.unwrap_or_default()));
             }
+            St::Idle { op, pauses_ms } => {
+                o.nontrivial = true;
+                let me = std::path::PathBuf::from("/proc/self/exe");
+                let pauses = pauses_ms.iter().map(|p| p.to_string()).collect::<Vec<_>>().join(",");
+                let out = std::process::Command::new(&me).args(["child", "c20", g, &op.to_string(), &self.seed.to_string(), "idle", &pauses]).output();
+                let lines: Vec<String> = match out {
+                    Ok(out) if out.status.success() => String::from_utf8_lossy(&out.stdout).lines().map(|l| l.to_string()).collect(),
+                    other => panic!("cannot run the idle child process: {:?}", other.map(|o| o.status.code())),
+                };
+                o.calls(pauses_ms.len() as u64 + 1);
+                let distinct: HashSet<&String> = lines.iter().collect();
+                let ok = !lines.is_empty() && distinct.len() == lines.len();
+                o.outcome(if ok { "idle:no-repeat-across-pauses" } else { "idle:repeat-across-a-pause" });
+                o.expect(&format!("C20:ephemeral-repeats-after-idle-time:{}:{}", g, OPS[*op]), ok, "pairwise distinct ephemerals before and after every pause", &format!("{} distinct of {}", distinct.len(), lines.len()));
+            }
             St::Processes { op } => {
                 o.nontrivial = true;
                 let me = std::env::current_exe().unwrap_or_default();
@@ -396,18 +420,35 @@ unsafe impl<'a, C: Suite> Sync for Sh<'a, C> {}
 pub fn child(args: &[String]) -> i32 {
     let op: usize = args[1].parse().unwrap_or(0);
     let seed: u64 = args[2].parse().unwrap_or(1);
-    fn go<C: Suite>(op: usize, seed: u64) {
+    fn go<C: Suite>(op: usize, seed: u64, pauses: Option<Vec<u64>>) {
         let f = Fixed::<C>::new(seed);
+        if let Some(pauses) = pauses {
+            // two calls, then two more after each pause (the k-th call after a pause against the k-th of the process)
+            let mut emit = || {
+                for _ in 0..2 {
+                    for (l, b) in run_op(&f, op) {
+                        println!("{} {}", l, hex::encode(b));
+                    }
+                }
+            };
+            emit();
+            for p in pauses {
+                std::thread::sleep(std::time::Duration::from_millis(p));
+                emit();
+            }
+            return;
+        }
         for _ in 0..8 {
             for (l, b) in run_op(&f, op) {
                 println!("{} {}", l, hex::encode(b));
             }
         }
     }
+    let pauses: Option<Vec<u64>> = if args.get(3).map(|s| s.as_str()) == Some("idle") { Some(args.get(4).map(|s| s.split(',').filter_map(|p| p.parse().ok()).collect()).unwrap_or_default()) } else { None };
     if args[0] == "G1" {
-        go::<Bls12381G1Impl>(op, seed)
+        go::<Bls12381G1Impl>(op, seed, pauses)
     } else {
-        go::<Bls12381G2Impl>(op, seed)
+        go::<Bls12381G2Impl>(op, seed, pauses)
     }
     0
 }
